@@ -93,3 +93,33 @@ def ge_term(ctx, a, witness):
     at_w = z3.substitute(ba, *sub)
     in_w = z3.And(*[z3.And(zi(w) >= lo, zi(w) < hi) for (v, lo, hi), w in zip(ra, witness)])
     return [("sigma.body-nonnegative", z3.Implies(in_range(ra), ba >= 0)), ("sigma.witness-in-range", in_w)], a >= at_w
+
+
+def delta(ctx, a, point, value):
+    """sum == value  if the body is `value` at `point` (which lies in the range) and 0 at every other index of the range"""
+    ra, ba = instantiate(ctx, a)
+    at_p = z3.And(*[v == zi(p) for (v, lo, hi), p in zip(ra, point)])
+    in_p = z3.And(*[z3.And(zi(p) >= lo, zi(p) < hi) for (v, lo, hi), p in zip(ra, point)])
+    return [("sigma.point-in-range", in_p), ("sigma.body-is-a-delta", z3.Implies(in_range(ra), ba == z3.If(at_p, zr(value), z3.RealVal(0))))], a == zr(value)
+
+
+def fubini(ctx, joint, nested):
+    """sum over (y, x) of f  ==  sum over y of (sum over x of f):  nested is a Sum whose summand is itself a Sum application"""
+    rj, bj = instantiate(ctx, joint)
+    rn, bn = instantiate(ctx, nested)
+    if len(rj) != 2 or len(rn) != 1:
+        return [("sigma.fubini-shape", z3.BoolVal(False))], z3.BoolVal(True)
+    inner = find_sums(bn)
+    if len(inner) != 1 or not inner[0].eq(z3.simplify(bn)) and not inner[0].eq(bn):
+        return [("sigma.fubini-summand-is-a-sum", z3.BoolVal(False))], z3.BoolVal(True)
+    ri, bi = instantiate(ctx, inner[0])
+    (vy, ly, hy), (vx, lx, hx) = rj
+    (wy, lwy, hwy) = rn[0]
+    (wx, lwx, hwx) = ri[0]
+    # rename the nested bound variables to the joint ones
+    sub = [(wy, vy), (wx, vx)]
+    bi2 = z3.substitute(bi, *sub)
+    obl = [("sigma.fubini-outer-range", z3.And(ly == z3.substitute(lwy, *sub), hy == z3.substitute(hwy, *sub))),
+           ("sigma.fubini-inner-range", z3.Implies(z3.And(vy >= ly, vy < hy), z3.And(lx == z3.substitute(lwx, *sub), hx == z3.substitute(hwx, *sub)))),
+           ("sigma.fubini-summands-equal", z3.Implies(in_range(rj), bj == bi2))]
+    return obl, joint == nested
